@@ -443,15 +443,15 @@ fn gen_amount(rng: &mut Rng, exact: bool) -> Amt {
     }
 }
 fn gen_ings(rng: &mut Rng, n: usize, exact: bool) -> Vec<(String, Amt)> {
-    let pool = ["salt", "pepper", "é", "", "sea salt"];
+    let pool = ["salt", "pepper", "é", "", "sea salt", "Salt", "Olive Oil", "É"];   // names are keys as written: `Salt` and `salt` are two entries
     let np = 1 + rng.below(pool.len());
     (0..n).map(|_| (pool[rng.below(np)].to_string(), gen_amount(rng, exact))).collect()
 }
 
 fn gen_il(rng: &mut Rng, consistent: bool) -> Vec<(String, Vec<(String, usize, FV)>)> {
-    let names = ["salt", "pepper", "é"];
+    let names = ["salt", "pepper", "é", "Salt", "Olive Oil"];
     let mut out: Vec<(String, Vec<(String, usize, FV)>)> = vec![];
-    for n in names.iter().take(1 + rng.below(3)) {
+    for n in names.iter().take(1 + rng.below(5)) {
         if rng.chance(1, 3) { continue; }
         let mut g: Vec<(String, usize, FV)> = vec![];
         for u in ["", "g", "kg", "T", "t", "G"] { for k in 0..4usize {
